@@ -38,14 +38,24 @@ def goenv():
 
 
 def run(cmd, cwd=None, timeout=1800, env=None, stdin=None):
-    """Run a command; returns (rc, combined output). rc 124 on timeout."""
+    """Run a command in its own process group; returns (rc, combined output). rc 124 on timeout
+    (the whole group is killed, so worker subprocesses of a harness do not survive it)."""
+    import signal
+    p = subprocess.Popen(cmd, cwd=cwd, env=env, stdout=subprocess.PIPE, stderr=subprocess.STDOUT,
+                         stdin=subprocess.PIPE if stdin is not None else None, start_new_session=True)
     try:
-        p = subprocess.run(cmd, cwd=cwd, env=env, stdout=subprocess.PIPE, stderr=subprocess.STDOUT,
-                           timeout=timeout, input=stdin)
-        return p.returncode, p.stdout.decode("utf-8", "replace")
-    except subprocess.TimeoutExpired as e:
-        out = e.stdout.decode("utf-8", "replace") if e.stdout else ""
-        return 124, out + "\n[timeout after %ss]" % timeout
+        out, _ = p.communicate(input=stdin, timeout=timeout)
+        return p.returncode, out.decode("utf-8", "replace")
+    except subprocess.TimeoutExpired:
+        try:
+            os.killpg(p.pid, signal.SIGKILL)
+        except Exception:
+            p.kill()
+        try:
+            out, _ = p.communicate(timeout=30)
+        except Exception:
+            out = b""
+        return 124, (out or b"").decode("utf-8", "replace") + "\n[timeout after %ss]" % timeout
 
 
 class Lock:
@@ -267,7 +277,10 @@ def write_replay(prop, payload):
     return path
 
 
-def harness_run(prop, tier, seed, outdir, n=0, timeout=3000, mult=1):
+def harness_run(prop, tier, seed, outdir, n=0, timeout=None, mult=1):
+    if timeout is None:
+        # a regression that makes the implementation hang must not hang the check
+        timeout = int(os.environ.get("VERIF_HARNESS_TIMEOUT") or (900 if tier == "quick" else 5400))
     os.makedirs(outdir, exist_ok=True)
     cmd = [os.path.join(BIN, PROPS[prop]["runner"]), "-prop", prop, "-tier", tier, "-seed", str(seed), "-out", outdir]
     if n:
